@@ -87,6 +87,8 @@ Section Params.
 
   Inductive op :=
   | OReceive (p : N)
+  | OReceiveFail (at_meta : bool) (p : N)   (* a receive that fails: the write of the ciphertext fails (nothing happens), or
+                                              the write of its meta blob fails (an orphan ciphertext stays behind) *)
   | OJobUpload            (* the oldest packing goroutine builds and uploads its packed meta blob *)
   | OJobAbort             (* ... or gives up (it ran before the index entry of the newest blob was written; upload error) *)
   | OJobDelete (ok : bool)  (* ... and removes the small ones (RemoveBlobs may fail: logged, ignored) *)
@@ -164,6 +166,15 @@ Section Params.
   Definition step (s : st) (o : op) : option st :=
     match o with
     | OReceive p => Some (receive p s)
+    | OReceiveFail at_meta p =>
+        match ilookup p (index s) with
+        | Some _ => Some s
+        | None =>
+            if at_meta then
+              Some {| blobs := sput (CData p (nonce s)) (blobs s); meta := meta s; index := index s; heap := heap s; jobs := jobs s;
+                      deletes := deletes s; nonce := nonce s + 2 |}
+            else Some s
+        end
     | OJobUpload => Some (job_upload s)
     | OJobAbort => Some {| blobs := blobs s; meta := meta s; index := index s; heap := heap s; jobs := tl (jobs s); deletes := deletes s; nonce := nonce s |}
     | OJobDelete ok => Some (job_delete ok s)
